@@ -169,7 +169,8 @@ def r34(ctx, F, hub):
         returns_reply = any(wt['dst']['l'] == 0 for wb, wt in replies)
         if short == 'handle_put':
             drained = False
-            len_i = param_index(b, 'len')
+            u64s = [i for i in range(1, b.argc + 1) if b.local_ty(i) == 'u64']
+            len_i = u64s[0] if len(u64s) == 1 else param_index(b, 'len')     # the declared content length: handle_put's only u64 parameter
             for cb, ct in fl.calls_to('std::io::copy'):
                 if cb not in only_refusal:
                     continue
